@@ -18,7 +18,8 @@ struct Case {
     disabled: Vec<String>,
     store: Store,
     max_cycles: usize,
-    entry: Entry,
+    /// the calls made one after the other on ONE engine and fact store
+    entries: Vec<Entry>,
 }
 
 impl Case {
@@ -28,7 +29,7 @@ impl Case {
             "disabled": self.disabled,
             "store": self.store.to_json(),
             "max_cycles": self.max_cycles,
-            "entry": self.entry.name(),
+            "entries": self.entries.iter().map(|e| e.name()).collect::<Vec<_>>(),
             "grl": fmt_rules(&self.rules),
         })
     }
@@ -38,7 +39,10 @@ impl Case {
             disabled: j.get("disabled")?.as_array()?.iter().filter_map(|v| v.as_str().map(|s| s.to_string())).collect(),
             store: Store::from_json(j.get("store")?)?,
             max_cycles: j.get("max_cycles")?.as_u64()? as usize,
-            entry: Entry::from_name(j.get("entry").and_then(|v| v.as_str()).unwrap_or("execute_with_callback")),
+            entries: match j.get("entries").and_then(|v| v.as_array()) {
+                Some(a) => a.iter().filter_map(|v| v.as_str()).map(Entry::from_name).collect(),
+                None => vec![Entry::from_name(j.get("entry").and_then(|v| v.as_str()).unwrap_or("execute_with_callback"))],
+            },
         })
     }
 }
@@ -70,64 +74,76 @@ fn inc(t: &str) -> Action {
 
 fn judge(case: &Case) -> (Verdict, Obs) {
     let mut obs = Obs::default();
-    let run = run_forward_rules(&case.rules, &case.store, case.max_cycles, &case.disabled, case.entry);
-    if run.parse_error.is_some() {
-        obs.parse_failed = true;
-        return (None, obs);
+    let mut session = match FwdSession::new(&case.rules, &case.store, case.max_cycles, &case.disabled) {
+        Ok(s) => s,
+        Err(_) => {
+            obs.parse_failed = true;
+            return (None, obs);
+        }
+    };
+    // no-loop tracking is per engine: it carries over from call to call
+    let mut noloop_fired: std::collections::BTreeSet<String> = std::collections::BTreeSet::new();
+    for (ci, entry) in case.entries.iter().enumerate() {
+        let run = session.run(*entry);
+        let v = judge_call(case, ci, *entry, &run, &mut noloop_fired, &mut obs);
+        if v.is_some() {
+            return (v, obs);
+        }
+        if matches!(run.end, RunEnd::Runaway(_) | RunEnd::Panic(_)) {
+            break;
+        }
     }
+    (None, obs)
+}
+
+fn judge_call(case: &Case, ci: usize, entry: Entry, run: &Run, noloop_fired: &mut std::collections::BTreeSet<String>, obs: &mut Obs) -> Verdict {
     let n = case.rules.len();
-    obs.passes = run.passes as u64;
-    obs.firings = run.firings.len() as u64;
+    obs.passes += run.passes as u64;
+    obs.firings += run.firings.len() as u64;
     let mc = case.max_cycles;
+    let call = format!("call #{} ({})", ci, entry.name());
+    for f in &run.firings {
+        if let Some(r) = case.rules.iter().find(|r| r.name == f.rule) {
+            if r.attrs.no_loop {
+                noloop_fired.insert(r.name.clone());
+            }
+        }
+    }
     match &run.end {
-        RunEnd::Runaway(why) => (
-            Some((
-                "runs-beyond-bound",
-                why.replace(' ', "-"),
-                format!("{} (max_cycles {}, {} rules, {} passes and {} callbacks seen before the monitor stopped the run)", why, mc, n, run.passes, run.firings.len()),
-            )),
-            obs,
-        ),
-        RunEnd::Panic(p) => (
-            Some(("panic", format!("{}|{}", p.class(), p.frame), format!("execute panicked: {} at {}:{}", p.msg, p.file, p.line))),
-            obs,
-        ),
+        RunEnd::Runaway(why) => Some((
+            "runs-beyond-bound",
+            why.replace(' ', "-"),
+            format!("{}: {} (max_cycles {}, {} rules, {} passes and {} firings seen before the monitor stopped the run)", call, why, mc, n, run.passes, run.firings.len()),
+        )),
+        RunEnd::Panic(p) => Some(("panic", format!("{}|{}", p.class(), p.frame), format!("{} panicked: {} at {}:{}", call, p.msg, p.file, p.line))),
         RunEnd::Err(_) => {
             obs.exec_err = true;
-            (None, obs)
+            None
         }
         RunEnd::Ok { cycle_count, rules_fired, .. } => {
             let cc = *cycle_count;
+            let later = if ci > 0 { "after-an-earlier-call-on-the-same-engine" } else { "general" };
             if cc > mc {
-                return (
-                    Some((
-                        "cycle-count-exceeds-bound",
-                        if mc == 0 { "max_cycles=0".into() } else { "general".into() },
-                        format!("cycle_count {} > max_cycles {}", cc, mc),
-                    )),
-                    obs,
-                );
+                return Some((
+                    "cycle-count-exceeds-bound",
+                    if mc == 0 { "max_cycles=0".into() } else { "general".into() },
+                    format!("{}: cycle_count {} > max_cycles {}", call, cc, mc),
+                ));
             }
             if *rules_fired != run.firings.len() {
-                return (
-                    Some((
-                        "fired-count-mismatch",
-                        "general".into(),
-                        format!("rules_fired {} but {} firings were observed through the callback", rules_fired, run.firings.len()),
-                    )),
-                    obs,
-                );
+                return Some((
+                    "fired-count-mismatch",
+                    "general".into(),
+                    format!("{}: rules_fired {} but {} firings were observed", call, rules_fired, run.firings.len()),
+                ));
             }
             // pass structure needs the H2 markers
             if run.passes == 0 && (cc > 0 || !run.firings.is_empty()) {
                 obs.hook_missing = true;
-                return (None, obs);
+                return None;
             }
             if run.passes > mc {
-                return (
-                    Some(("passes-exceed-bound", "general".into(), format!("{} passes were made with max_cycles {}", run.passes, mc))),
-                    obs,
-                );
+                return Some(("passes-exceed-bound", "general".into(), format!("{}: {} passes were made with max_cycles {}", call, run.passes, mc)));
             }
             let mut per_pass = vec![0usize; run.passes];
             for f in &run.firings {
@@ -135,106 +151,94 @@ fn judge(case: &Case) -> (Verdict, Obs) {
                     Some(p) if p < run.passes => per_pass[p] += 1,
                     _ => {
                         obs.hook_missing = true;
-                        return (None, obs);
+                        return None;
                     }
                 }
             }
             // at most one firing per rule per pass follows from "a pass over the rules"
             for (p, c) in per_pass.iter().enumerate() {
                 if *c > n {
-                    return (
-                        Some(("pass-fires-a-rule-twice", "general".into(), format!("pass {} had {} firings with {} rules", p, c, n))),
-                        obs,
-                    );
+                    return Some(("pass-fires-a-rule-twice", "general".into(), format!("{}: pass {} had {} firings with {} rules", call, p, c, n)));
                 }
             }
             if let Some(last) = per_pass.last() {
                 for (p, c) in per_pass[..per_pass.len() - 1].iter().enumerate() {
                     if *c == 0 {
-                        return (
-                            Some((
-                                "continued-after-empty-pass",
-                                "general".into(),
-                                format!("pass {} fired nothing but {} more passes followed (firings per pass {:?})", p, per_pass.len() - 1 - p, per_pass),
-                            )),
-                            obs,
-                        );
+                        return Some((
+                            "continued-after-empty-pass",
+                            "general".into(),
+                            format!("{}: pass {} fired nothing but {} more passes followed (firings per pass {:?})", call, p, per_pass.len() - 1 - p, per_pass),
+                        ));
                     }
                 }
                 if *last > 0 && run.passes < mc {
-                    return (
-                        Some((
-                            "stopped-early-without-quiescence",
-                            "by-passes-made".into(),
-                            format!("made {} passes of max_cycles {}, the last one fired {} rules (firings per pass {:?})", run.passes, mc, last, per_pass),
-                        )),
-                        obs,
-                    );
+                    return Some((
+                        "stopped-early-without-quiescence",
+                        "by-passes-made".into(),
+                        format!("{}: made {} passes of max_cycles {}, the last one fired {} rules (firings per pass {:?})", call, run.passes, mc, last, per_pass),
+                    ));
                 }
                 if *last > 0 && cc < mc {
-                    return (
-                        Some((
-                            "stopped-early-without-quiescence",
-                            "by-reported-cycle-count".into(),
-                            format!("reported cycle_count {} < max_cycles {} although the last pass fired {} rules ({} passes were made)", cc, mc, last, run.passes),
-                        )),
-                        obs,
-                    );
+                    return Some((
+                        "stopped-early-without-quiescence",
+                        "by-reported-cycle-count".into(),
+                        format!("{}: reported cycle_count {} < max_cycles {} although the last pass fired {} rules ({} passes were made)", call, cc, mc, last, run.passes),
+                    ));
                 }
                 if *last == 0 && cc == mc && run.passes < mc {
                     // reports "at the bound" although it quiesced earlier: the user is told the opposite of what happened
-                    return (
-                        Some((
-                            "reports-bound-although-quiesced",
-                            "general".into(),
-                            format!("cycle_count {} == max_cycles although only {} passes were made and the last fired nothing", cc, run.passes),
-                        )),
-                        obs,
-                    );
+                    return Some((
+                        "reports-bound-although-quiesced",
+                        "general".into(),
+                        format!("{}: cycle_count {} == max_cycles although only {} passes were made and the last fired nothing", call, cc, run.passes),
+                    ));
                 }
-                obs.bound_reached = *last > 0;
-                obs.quiesced = *last == 0;
-            } else if mc > 0 {
-                return (
-                    Some(("no-pass-made", "general".into(), format!("max_cycles {} but no pass was made", mc))),
-                    obs,
-                );
-            }
-            // fixpoint
-            if obs.quiesced {
-                let fin = match &run.final_store {
-                    Ok(s) => s.clone(),
-                    Err(_) => return (None, obs),
-                };
-                for r in &case.rules {
-                    if case.disabled.contains(&r.name) {
-                        continue;
-                    }
-                    if r.attrs.no_loop && run.firings.iter().any(|f| f.rule == r.name) {
-                        continue;
-                    }
-                    match eval_cond(&r.cond, &fin) {
-                        T3::True => {
-                            return (
-                                Some((
+                obs.bound_reached |= *last > 0;
+                obs.quiesced |= *last == 0;
+                // fixpoint: the run stopped after a pass that fired nothing
+                if *last == 0 {
+                    let fin = match &run.final_store {
+                        Ok(s) => s.clone(),
+                        Err(_) => return None,
+                    };
+                    for r in &case.rules {
+                        if case.disabled.contains(&r.name) {
+                            continue;
+                        }
+                        if r.attrs.no_loop && noloop_fired.contains(&r.name) {
+                            continue;
+                        }
+                        // (no rule fired in the last pass, so no activation group is blocked in it)
+                        match eval_cond(&r.cond, &fin) {
+                            T3::True => {
+                                let cause = if r.attrs.activation_group.is_some() {
+                                    format!("activation-group-rule-still-true|{}", later)
+                                } else if r.attrs.no_loop {
+                                    format!("no-loop-rule-that-never-fired|{}", later)
+                                } else {
+                                    format!("eligible-rule-still-true|{}", later)
+                                };
+                                return Some((
                                     "not-a-fixpoint",
-                                    if r.attrs.no_loop { "no-loop-rule-that-never-fired".into() } else { "eligible-rule-still-true".into() },
+                                    cause,
                                     format!(
-                                        "stopped after a pass that fired nothing, but rule {} (`{}`) is true on the final facts {}",
+                                        "{}: stopped after a pass that fired nothing, but rule {} (`{}`) is true on the final facts {}",
+                                        call,
                                         r.name,
                                         fmt_cond(&r.cond),
                                         fin.to_json()
                                     ),
-                                )),
-                                obs,
-                            )
+                                ));
+                            }
+                            T3::False => obs.fixpoint_rules_checked += 1,
+                            T3::Undef(u) => obs.undefined.push(u),
                         }
-                        T3::False => obs.fixpoint_rules_checked += 1,
-                        T3::Undef(u) => obs.undefined.push(u),
                     }
                 }
+            } else if mc > 0 {
+                return Some(("no-pass-made", "general".into(), format!("{}: max_cycles {} but no pass was made", call, mc)));
             }
-            (None, obs)
+            None
         }
     }
 }
@@ -262,7 +266,12 @@ fn record(case: &Case, st: &mut Stats) {
     if obs.exec_err {
         st.count("execute_returned_err_(no_verdict)");
     }
-    st.count(&format!("runs_via::{}", case.entry.name()));
+    for e in &case.entries {
+        st.count(&format!("calls_via::{}", e.name()));
+    }
+    if case.entries.len() > 1 {
+        st.count("histories_with_several_calls_on_one_engine");
+    }
     st.add("passes_observed", obs.passes);
     st.add("firings_observed", obs.firings);
     st.add("fixpoint_rule_checks", obs.fixpoint_rules_checked);
@@ -327,6 +336,10 @@ fn gen_rule(rng: &mut Rng, idx: usize) -> RuleAst {
         let from = *rng.pick(&["a", "b", "c"]);
         let to = *rng.pick(&["a", "b", "c", "end"]);
         (leaf("s", Op::Eq, V::Str(from.into())), vec![set("s", Rhs::Lit(V::Str(to.into())))])
+    } else if k < 96 {
+        // a rule whose action fails (unregistered custom action): the call returns Err
+        let f = *rng.pick(&flags);
+        (leaf(f, Op::Eq, V::Bool(rng.bool())), vec![Action::Call("Boom".into(), vec![])])
     } else {
         // two counters chasing each other
         (
@@ -341,6 +354,7 @@ fn gen_rule(rng: &mut Rng, idx: usize) -> RuleAst {
         attrs: Attrs {
             salience: if rng.bool() { Some(*rng.pick(&[0, 1, 1, 5, 10])) } else { None },
             no_loop: rng.chance(1, 3),
+            activation_group: if rng.chance(1, 4) { Some(rng.pick(&["X", "Y"]).to_string()) } else { None },
             ..Default::default()
         },
         cond,
@@ -377,7 +391,9 @@ fn gen_case(rng: &mut Rng) -> Case {
         3 => 64,
         _ => rng.below(65),
     };
-    Case { rules, disabled, store: gen_store(rng), max_cycles, entry: if rng.bool() { Entry::WithCallback } else { Entry::Execute } }
+    let ncalls = *rng.pick(&[1usize, 1, 1, 2, 2, 3]);
+    let entries = (0..ncalls).map(|_| if rng.bool() { Entry::WithCallback } else { Entry::Execute }).collect();
+    Case { rules, disabled, store: gen_store(rng), max_cycles, entries }
 }
 
 struct C03;
@@ -393,7 +409,7 @@ fn explore_shard(cli: &Cli, shard: usize, nshards: usize, rng: &mut Rng, st: &mu
         }
         for mc in 0..=64usize {
             for entry in [Entry::WithCallback, Entry::Execute] {
-                let c = Case { max_cycles: mc, entry, ..base.clone() };
+                let c = Case { max_cycles: mc, entries: vec![entry], ..base.clone() };
                 record(&c, st);
             }
         }
@@ -415,13 +431,13 @@ impl Check for C03 {
         "C03"
     }
     fn rule(&self) -> String {
-        "1-5 rules drawn from: counters under a limit above/below the bound, flag flippers (ping-pong), always-true rules, quiescing rules, string state machines, counters chasing each other; no-loop on 1/3 of the rules, 1/8 disabled, salience ties; max_cycles over 0..=64 (a fixed family of programs is run on EVERY max_cycles value: exhaustive over that grid), timeout None. Non-trivial: at least one firing and at least two passes observed; distinct by (rules, disabled, store, max_cycles).".into()
+        "1-5 rules drawn from: counters under a limit above/below the bound, flag flippers (ping-pong), always-true rules, quiescing rules, string state machines, counters chasing each other; no-loop on 1/3 of the rules, activation groups on 1/4, 1/8 disabled, salience ties, rules whose action fails (the call returns Err); 1-3 calls on ONE engine and fact store (execute_with_callback / execute mixed); max_cycles over 0..=64 (a fixed family of programs is run on EVERY max_cycles value: exhaustive over that grid), timeout None. Non-trivial: at least one firing and at least two passes observed; distinct by (rules, disabled, store, max_cycles).".into()
     }
     fn assumptions(&self) -> Vec<String> {
         vec![
             "passes are observed through hook H2 (ForwardPass markers) drained inside the firing callback; the firing counts come from the callback".into(),
             "'stops before the bound' is judged both on the passes actually made and on the reported cycle_count (the only way a caller can tell)".into(),
-            "eligible for the fixpoint clause = enabled and not a no-loop rule that already fired in this run (the fragment has no groups or dates)".into(),
+            "eligible for the fixpoint clause = enabled and not a no-loop rule that already fired on this engine (no-loop tracking is per engine and carries over between calls); no agenda groups or dates in this fragment; in a pass that fired nothing no activation group is blocked".into(),
             "a non-returning execute is decided on CPU seconds of the single announced case re-run alone in a child (30 s for a program that normally takes microseconds), never on wall clock".into(),
         ]
     }
